@@ -10,7 +10,9 @@ Three-way comparison on documents rendered from random node models (tools/gen_mo
                   typed in there: every declared name / property / default / reference retrievable with the
                   declared value; StructReg = its MaskedIntReg twins, Group = its members.
 Additional families: StructReg / Group documents against their desugared twin documents (implementation on both),
-formula-carrying kinds (implementation vs hand-written expression trees), documents mutated at tree level
+formula-carrying kinds (implementation vs hand-written expression trees), documents of every kind whose element
+texts (numbers, references, names, tooltips, enumeration values, formulas) are cut at random positions by 0, 1, 2,
+3+ comments / processing instructions (expectation unchanged), documents mutated at tree level
 (benign: comments / white space / CDATA between and inside elements; malformed: dropped, renamed, reordered
 elements, junk numbers), where model and implementation must agree on the outcome class."""
 import copy
@@ -31,7 +33,7 @@ LIMITATION_KEY = "StructEntry explicit schema default"
 
 # ------------------------------------------------------------------------------------------- raw trees ----
 class X:
-    """element of a raw tree; children: X | ('t', text) | ('c', comment)"""
+    """element of a raw tree; children: X | ('t', text) | ('cdata', text) | ('c', comment) | ('pi', target, data)"""
 
     def __init__(self, tag, attrs=None, children=None):
         self.tag, self.attrs, self.children = tag, list(attrs or []), list(children or [])
@@ -48,6 +50,8 @@ class X:
                 body += gm.esc(c[1])
             elif c[0] == "cdata":
                 body += "<![CDATA[%s]]>" % c[1]
+            elif c[0] == "pi":
+                body += "<?%s%s?>" % (c[1], (" " + c[2]) if c[2] else "")
             else:
                 body += "<!--%s-->" % c[1]
         return "<%s%s>%s</%s>" % (self.tag, a, body, self.tag)
@@ -65,6 +69,8 @@ class X:
                     parts[-1][0] += c[1]
                 else:
                     parts.append([c[1]])
+            elif c[0] == "pi":
+                parts.append("(PI %s %s)" % (gm.cs(c[1]), gm.cs(c[2])))
             else:
                 parts.append("(Comment %s)" % gm.cs(c[1]))
         parts = ["(Text %s)" % gm.cs(p[0]) if isinstance(p, list) else p for p in parts]
@@ -104,8 +110,46 @@ def doc_case(family, doc, **kw):
     return mk_case(family, doc.xml(), doc.term() if doc.has_model() else None, doc=doc, **kw)
 
 
-def tree_case(family, root, **kw):
-    return mk_case(family, root.xml(root=True), "run_doc true %s" % root.coq(), **kw)
+def tree_case(family, root, with_model=True, **kw):
+    return mk_case(family, root.xml(root=True), ("run_doc true %s" % root.coq()) if with_model else None, **kw)
+
+
+def noise(rng):
+    """a node that is neither element nor text: comment or processing instruction"""
+    if rng.chance(1, 2):
+        return ("c", rng.choice(["", "a", " note ", "x y", "<b>", "1", "]]>"]))
+    return ("pi", rng.choice(["b", "pi", "proc-1", "x"]), rng.choice(["", "d", "a=\"1\"", "1 2"]))
+
+
+def interrupt(rng, root, num=1, den=2, always=None):
+    """split the text of text-carrying elements (numbers, references, names, tooltips, formulas, ...) at random
+    positions - the very start and end and repeated positions included - by 0, 1, 2, 3+ comments / processing
+    instructions; the text of the element, hence the expected dump, is unchanged.  Returns the largest number of
+    text pieces produced."""
+    most = 0
+    for e in root.elems():
+        if any(isinstance(c, X) for c in e.children):
+            continue
+        if len(e.children) > 1 or (e.children and e.children[0][0] != "t"):
+            continue
+        if always is None and not rng.chance(num, den):
+            continue
+        t = e.children[0][1] if e.children else ""
+        n = always if always is not None else rng.choice([0, 1, 1, 2, 2, 2, 3, 3, 4, 6])
+        cuts = sorted(rng.below(len(t) + 1) for _ in range(n))
+        kids, prev, pieces = [], 0, 0
+        for c in cuts:
+            if c > prev:
+                kids.append(("t", t[prev:c]))
+                pieces += 1
+            kids.append(noise(rng))
+            prev = c
+        if prev < len(t):
+            kids.append(("t", t[prev:]))
+            pieces += 1
+        e.children = kids
+        most = max(most, pieces)
+    return most
 
 
 def boundary_docs():
@@ -137,6 +181,36 @@ def boundary_docs():
     for rep in gm.IREP:
         docs.append(gm.Doc([gm.Integer(Attr("A"), Eb(), None, gm.Vk("value", IL(5)), None, None, None, None, rep, [])]))
     return docs
+
+
+def interrupted_boundary(rng):
+    """node models whose every element text is cut into k + 1 pieces by k comments / processing instructions
+    (`<Value>1<!--a-->2<?b?>3</Value>` is 123, `<pMax>Gain<!--a-->Max<!--b-->Node</pMax>` refers to GainMaxNode)"""
+    IL, Imm, PN, Eb, Attr = gm.IL, gm.Imm, gm.PN, gm.Eb, gm.Attr
+    docs = [
+        gm.Doc([gm.Integer(Attr("Gain"), Eb(tooltip="The gain of the device", description="first, second and third part",
+                                            display_name="Gain (raw)", impl="GainImplemented"), None,
+                           gm.Vk("value", IL(123)), Imm(IL(1000, "h")), PN("GainMaxNode"), Imm(IL(-250)), "decibel", "Linear",
+                           ["GainSelector"])]),
+        gm.Doc([gm.Float(Attr("Exposure"), Eb(tooltip="Exposure time"), None, gm.Vk("pvalue", ["CopyOne"], "ExposureRaw", ["CopyTwo"]),
+                         Imm(gm.FL("text", "0.125")), PN("ExposureMaxNode"), Imm(gm.FL("text", "1e-3")), "microsecond", "Logarithmic",
+                         "Scientific", IL(12))]),
+        gm.Doc([gm.Enumeration(Attr("Mode"), Eb(), None,
+                               [gm.EnumEntry(Attr("Continuous"), Eb(display_name="Continuous mode"), IL(4660, "h"), gm.FL("text", "12.75"), None)],
+                               PN("ModeRegister"), ["Selected"], IL(1500)),
+                gm.IntReg(Attr("ModeRegister"), gm.Rb(Eb(), None, [gm.Addr("addr", Imm(IL(65536, "h"))),
+                                                                    gm.Addr("pindex", Imm(IL(128)), "IndexNode")],
+                                                      Imm(IL(4)), "RW", "Device", "NoCache", IL(2500), ["Invalidator"]),
+                          "Signed", "BigEndian", "counts", "HexNumber", []),
+                gm.ISwiss(Attr("Knife"), Eb(), None, [("A", "ModeRegister")], [("C", IL(1024))], [("E", "A+B*2")], "(A+B)*2", None, None)]),
+    ]
+    out = []
+    for d in docs:
+        for k in (0, 1, 2, 3, 5):
+            root = tree_of_text(d.xml())
+            interrupt(rng, root, always=k)
+            out.append(tree_case("interrupted", root, doc=d, note="every text cut by %d" % k))
+    return out
 
 
 def boundary_trees():
@@ -245,6 +319,7 @@ def gen_cases(ck):
         cases.append(doc_case("boundary", d))
     for note, t in boundary_trees():
         cases.append(tree_case("raw", t, note=note))
+    cases += interrupted_boundary(rng)
     n_gen = 800 if quick else 60000
     n_kind = 30 if quick else 1500
     g = gm.Gen(rng)
@@ -270,6 +345,18 @@ def gen_cases(ck):
         g.n = 0
         cases.append(doc_case("formula", gm.Doc([g.k_formula() if rng.chance(2, 3) else g.k_iswiss()
                                                   for _ in range(rng.range(1, 3))])))
+    # element texts interrupted by comments / processing instructions, every kind (the expectation is unchanged)
+    gi = gm.Gen(rng)
+    kinds_i = gm.KINDS + ["formula"]
+    for j in range(450 if quick else 15000):
+        gi.n = 0
+        if j < 3 * len(kinds_i):
+            d = gm.Doc([getattr(gi, "k_" + kinds_i[j % len(kinds_i)])()])
+        else:
+            d = gm.Doc([gi.node(kinds_i) for _ in range(rng.range(1, 3))])
+        root = tree_of_text(d.xml())
+        most = interrupt(rng, root, 2, 3)
+        cases.append(tree_case("interrupted", root, with_model=d.has_model(), doc=d, note="up to %d text pieces" % most))
     # mutated documents
     for _ in range(250 if quick else 20000):
         d = g.doc([k for k in gm.KINDS])
@@ -522,6 +609,11 @@ def main():
             for n in d.nodes:
                 kinds[type(n).__name__] = kinds.get(type(n).__name__, 0) + 1
     ck.dist["top_level_nodes_by_kind"] = kinds
+    pieces = {}
+    for c in cases:
+        if c.meta["family"] == "interrupted":
+            pieces[c.meta["note"]] = pieces.get(c.meta["note"], 0) + 1
+    ck.dist["interrupted_texts"] = pieces
     ck.dist["outcomes"] = {"ok": sum(1 for o in impl if o and o[0] == 0), "panic": sum(1 for o in impl if o == [2]),
                            "error": sum(1 for o in impl if o and o[0] == 1)}
     ck.finish()
